@@ -553,3 +553,24 @@ for sid in ("C09-3", "C09-9"):
     CATALOGUE.append(dict(name="seed-"+sid+"-on-validated-precision", kind="benign", props=["C08", "C09", "C17"], edits=[], rule="", where="", patch="seeded/"+sid+"/patch.diff"))
     CATALOGUE.append(dict(name="seed-"+sid+"-precision-unvalidated-C08", kind="break", props=["C08"], edits=UNFIX_JLS, rule="MAKE", where="NewGradientQuantizerFor", patch="seeded/"+sid+"/patch.diff"))
     CATALOGUE.append(dict(name="seed-"+sid+"-precision-unvalidated-C09", kind="break", props=["C09"], edits=UNFIX_JLS, rule="ALLOC-EXP", where="NewGradientQuantizerFor", patch="seeded/"+sid+"/patch.diff"))
+
+# ---------------------------------------------------------------- round 4 (DESIGN 10.10)
+seed("C01-2", "C10", "OUTPUT-VIEW")
+seed("C20-1", "C10", "DETERMINISM")
+seed("C20-1", "C18", "NO-HIDDEN-CONCURRENCY")
+brk("c16-lossless-sof3-constant-precision", ["C16"],
+    [("jpeg/lossless/encoder.go", "	data[0] = byte(enc.precision)   // Precision", "	data[0] = 16   // Precision")],
+    "FLOWS-HEADER", "lossless.Encode")
+brk("c16-nearlossless-sos-constant-near", ["C16"],
+    [("jpegls/nearlossless/encoder.go", "	data[length-3] = byte(enc.near)", "	data[length-3] = 0")],
+    "FLOWS-HEADER", "nearlossless.Encode")
+refactor("R21-1", ["C08", "C16", "C17"])
+refactor("R21-2", ["C08", "C09"])
+refactor("R21-3", ["C08", "C16"])
+refactor("R21-4", ["C08", "C16", "C17"])
+refactor("R21-5", ["C08", "C10", "C16"])
+refactor("R22-2", ["C08", "C09"])
+refactor("R24-1", ["C10", "C18"])
+refactor("R24-3", ["C10", "C18", "C05"])
+refactor("R24-4", ["C10", "C06", "C18"])
+refactor("R24-5", ["C10", "C08"])
